@@ -200,10 +200,14 @@ def impl_read_file(data, limit_s=30, **ropts):
 def impl_block_infos(data):
     import fastavro
     out = []
-    try:
+    def go():
         for b in fastavro.block_reader(io.BytesIO(data)):
             out.append((b.offset, b.size, b.num_records))
+    try:
+        core.with_timeout(go, 30)
         oc = "END"
+    except core.Timeout:
+        oc = "TIMEOUT"
     except Exception:
         oc = "RAISED"
     return "".join("%d,%d,%d;" % t for t in out) + "|" + oc
